@@ -197,6 +197,13 @@ func (s *gridScreen) setSize(w, h int) {
 	prevW := s.size.X
 	prevH := s.size.Y
 
+	// A wide character cut by the new right edge is blanked.
+	if w < prevW {
+		for y := 0; y < prevH && y < h && y < len(s.cellCont); y++ {
+			s.splitWideAt(y, w)
+		}
+	}
+
 	minW := w
 	if w > prevW {
 		minW = prevW
